@@ -552,7 +552,12 @@ def main(check: Check, argv=None):
             new_fail.append((st, c, o, why))
     new_dis = []
     for (st, c, o) in disagreements:
-        k = is_known(st, c, o, st.oracle(c, o))
+        # A model disagreement is excused by a known finding only for streams that say their model
+        # deliberately deviates from the code on the finding (disagreement_excused_by_known = True).
+        # For a faithful model (the default) a known finding is a PROPERTY failure that model and code
+        # share, so it never explains a disagreement: it must not hide one on the same case.
+        k = is_known(st, c, o, st.oracle(c, o)) if (getattr(st, 'disagreement_excused_by_known', False)
+                                                   or os.environ.get('VERIF_LENIENT_DISAGREE')) else None
         if k:
             seen_known.add(k['what'])
         else:
